@@ -218,6 +218,14 @@ func (f *archiveFileWriter) Write(p []byte) (int, error) {
 	if err != nil {
 		return 0, err
 	}
+	if f.file != nil {
+		// the previous entry is complete: close its file before opening the next one
+		file := f.file
+		f.file = nil
+		if err := file.Close(); err != nil {
+			return 0, err
+		}
+	}
 	file, _, err := f.transfer.createDirOrFile(f.path, srcFile, true)
 	if err != nil {
 		return 0, err
